@@ -32,8 +32,9 @@ AllBehaviours == {"ignore", "take", "takeResume", "resume", "inject", "rewrite",
                   "raise", "takeRaise", "handled"}
 \* "cap": the input that makes the cap-specific code raise (malformed LLSD body for Seed /
 \*        EventQueueGet / upload caps, missing wrapped cap for a wrapper, non-XML-RPC login reply)
-\* "logger": the message logger raises;  "owner": malformed bridge owner key header
+\* "logger": the message logger raises
 AllFaults == {"none", "cap", "logger"}
+\* X-SecondLife-Owner-Key of a bridge reply: missing, malformed (UUID() raises), agent of session 1 / 2
 Owners == {"absent", "bad", "s1", "s2"}
 
 VARIABLES tgt,     \* [k, s, r]: what the flow's URL denotes (fixed per behaviour)
@@ -61,7 +62,6 @@ NoFlow == [ev |-> "none", meta |-> Meta0, taken |-> FALSE, resumed |-> FALSE]
 Owned(k) == k \notin {"none", "login", "asset"}   \* URL attributable to a session and region
 FakeKind(k) == k \in {"wrapper", "proxyonly"}     \* CapType.fake
 AssetKind(k) == k \in {"asset", "wrapper"}        \* is_asset_server_cap_name
-Sess == {p \div 10 : p \in Pairs}
 Targets == {t \in [k : Kinds, s : 0..2, r : 0..2] :
                IF Owned(t.k) THEN 10 * t.s + t.r \in Pairs ELSE t.s = 0 /\ t.r = 0}
 
@@ -96,7 +96,9 @@ Hooks(bs, i, st, swallow) ==
 HandlerInject(st) == [st EXCEPT !.meta.resp = "handler", !.meta.pinj = TRUE]
 
 (*************************** pump_proxy_event ******************************)
-\* cfg = [addons : Seq(Behaviours), swallow : BOOLEAN, fault : Faults, logger : BOOLEAN, owner : Owners]
+\* cfg = [addons : Seq(Behaviours), swallow : BOOLEAN, fault : Faults, logger : BOOLEAN, owner : Owners,
+\*        proxied : BOOLEAN]   (proxied: the event manager has seen the asset server itself go through
+\*        the proxy -- state it keeps across flows; FALSE for a fresh manager)
 Start(m) == [meta |-> m, taken |-> FALSE, resumed |-> FALSE, puts |-> <<>>, exc |-> FALSE, stop |-> FALSE]
 
 \* _handle_request after the hooks: per-cap special cases, then the proxy-only fallback
@@ -106,7 +108,8 @@ ReqCapSpecific(cfg, st) ==
     ELSE LET s1 ==
              CASE k = "wrapper" ->
                       IF cfg.fault = "cap" THEN [st EXCEPT !.exc = TRUE]
-                      ELSE IF st.meta.stream THEN HandlerInject(st)
+                      \* redirect, unless the addons want to see the body or redirecting is known to be futile
+                      ELSE IF st.meta.stream /\ ~cfg.proxied THEN HandlerInject(st)
                       ELSE [st EXCEPT !.meta.url = "handler"]
                [] k \in {"eq", "seed"} -> IF cfg.fault = "cap" THEN [st EXCEPT !.exc = TRUE] ELSE st
                [] k = "empty" -> IF tgt.k = "login" /\ ~st.meta.browser
@@ -147,7 +150,7 @@ RunResponse(cfg, m0) ==
 Finally(st) == IF ~st.taken /\ ~st.resumed THEN Put(st) ELSE st
 
 Cfgs == [addons : [1..NAddons -> Behaviours], swallow : BOOLEAN, fault : Faults, logger : BOOLEAN,
-         owner : Owners]
+         owner : Owners, proxied : {FALSE}]
 \* configurations that differ only in an input the event cannot observe are collapsed
 Acting == {"take", "takeResume", "resume", "takeRaise"}
 MayRaise(bs) == \/ \E i \in DOMAIN bs : bs[i] \in {"raise", "takeRaise"}
@@ -161,7 +164,6 @@ Relevant(ev, cfg, m) ==
     /\ (ev = "request" => cfg.owner = "absent")
     /\ (ev = "response" => (cfg.logger <=> cfg.fault = "logger"))   \* a logger there is the raising one
     /\ (ev = "response" /\ m.cap.k # "bridge" => cfg.owner = "absent")
-    /\ (cfg.owner = "s2" => 2 \in Sess)
     /\ (cfg.fault = "cap" => IF ev = "request" THEN Resolve(tgt).k \in {"wrapper", "eq", "seed"}
                                                ELSE m.cap.k \in {"login", "seed", "eq", "upload"})
     \* the login reply in this universe is never a well-formed XML-RPC login response
@@ -223,6 +225,7 @@ AddonCall(op, mod) ==
     /\ mf.ev # "none" /\ calls < MaxCalls
     /\ calls' = calls + 1
     /\ LET m == IF mod /\ op = "resume" /\ mf.taken THEN [mf.meta EXCEPT !.resp = "addon", !.pinj = TRUE] ELSE mf.meta
+           \* (a late take is never legal: after handling a flow is owned or has gone back)
            legal == CASE op = "take" -> ~mf.taken /\ ~mf.resumed
                       [] op = "resume" -> ~mf.resumed
                       [] op = "preempt" -> ~mf.taken /\ mf.resumed
@@ -299,11 +302,6 @@ AttributionKept == ("request" \in handled /\ Owned(tgt.k) /\ px.phase # "dead")
 AppliedAttribution == (ap["request"] = 1 /\ Owned(tgt.k) /\ px.phase \in {"mid", "resp", "end"}) => px.meta.cap = tgt
 \* a hand-back says "response injected" exactly when it carries an injected response
 InjectedSurvives == \A i \in 1..Len(toQ) : toQ[i].meta.pinj <=> toQ[i].meta.resp \in {"addon", "handler"}
-\* what the proxy continues with is what was handed back (never a stale or foreign state)
-AppliedIsHandedBack == (px.phase = "mid" /\ ~fixed.preempted /\ mf.ev = "request" /\ calls = 0 /\ ~mf.taken
-                          /\ toQ = <<>> /\ fromQ = <<>>)
-                        => (px.meta.pinj => mf.meta.pinj) /\ px.meta.cap = mf.meta.cap
-
 (*************************** observation (binding B1) **********************)
 Obs == [px |-> [icpt |-> px.icpt, meta |-> px.meta],
         fromQ |-> fromQ,
